@@ -108,6 +108,7 @@ func routeReturns() []returnStmt {
 		{"blob", "var data []byte\n\treturn c.Blob(200, \"application/pdf\", data)", func(r *Route) { r.Return = "[]byte"; r.Blob = true }},
 		{"json-map", "outM := map[string]int{}\n\treturn c.JSON(200, outM)", func(r *Route) { r.Return = "map[string]int" }},
 		{"json-basic", "var code uint\n\treturn c.JSON(200, code)", func(r *Route) { r.Return = "uint" }},
+		{"json-slice-of-ids", "var outIds []IdDossier\n\treturn c.JSON(200, outIds)", func(r *Route) { r.Return = "[]IdDossier" }},
 		{"json-named-slice-literal", "return c.JSON(200, [][]string{{\"a\"}})", func(r *Route) { r.Return = "[][]string" }},
 	}
 }
